@@ -49,6 +49,12 @@ def run(ctx):
         for pre, op, cl, post in ctxs:
             s, oa, ba = emb(pre, op, a, cl, post)
             cases.append(('C07', [oa, ba], s, [('parse', {}, a), ('parse', {}, s)], a))
+    # "at any nesting depth": deep nests (the model covers 64 levels, the interpreter's recursion limit is far above 60)
+    for a in ['a', 'a b | c', 'if a; then b; fi']:
+        for k in ([12, 49, 58] if quick else [5, 12, 25, 40, 48, 49, 50, 52, 58, 62]):
+            for (o, c) in [('$(', ')'), ('<(', ')')]:
+                s, oa, ba = emb('b $(' * (k - 1) + 'b ', o, a, c, ')' * (k - 1))
+                cases.append(('C07', [oa, ba], s, [('parse', {}, a), ('parse', {}, s)], a))
     prot = []
     for body in ['$(a)', '$v', '${v}', '`a`', '~', '~u', '$1', '<(a)', '$(a $(b))']:
         esc = ''.join('\\' + c for c in body)
